@@ -273,6 +273,13 @@ func checkC14(r *core.Run) {
 	}
 	ruleShardPledgeBooked(r)
 	ruleReleaseTerm(r)
+	r.Rule("G-release-own (sibling agreement, shared with C07): when an order is settled, the shard's market booking (WorkerRelease in market.Withdraw) and its capacity/collateral (ShardRelease in model.TerminateOrder) are released under the same condition — the shard is completed AND in the period of the order being settled (shard.OrderId == order.Id); a renewal order lists the same shard, and a weaker test on one side releases the booking once per order while the capacity is released once")
+	ownClauses := []clause{
+		cl("shard-is-completed", guard.Eq("*order/keeper.Keeper.GetShard(*)#0.Status", constVal(r, "order/types", "ShardCompleted"))),
+		cl("shard-is-in-this-order's-period", guard.Eq("*order/keeper.Keeper.GetShard(*)#0.OrderId", "#2.Id")),
+	}
+	evalGuard(r, "G-release-own", "market/keeper.Keeper.Withdraw", effSel{Calls: []string{"market/keeper.Keeper.WorkerRelease"}}, ownClauses, 1)
+	evalGuard(r, "G-release-own", "model/keeper.Keeper.TerminateOrder", effSel{Calls: []string{"node/keeper.Keeper.ShardRelease", "model/types.NodeKeeper.ShardRelease"}}, ownClauses, 1)
 	r.Rule("T-settle-then-remove: shard records are removed only after the loop that settles all orders of the model (Terminate, force-push)")
 	ruleRemoveAfterSettle(r, "T-settle-then-remove")
 	r.Rule("T-lost-update: no stale local copy of a record is written back after a helper stored that record")
@@ -392,6 +399,8 @@ func checkC06(r *core.Run) {
 	ruleReplicaGiveUp(r)
 	r.Rule("T-refund-class: in market.Withdraw the full-duration price leaves the market escrow only for a waiting shard, the remaining-term price only for a completed shard of this order (no payout without a matching booked entitlement)")
 	ruleWithdrawClass(r)
+	r.Rule("T-accrual-clock: a worker's accrued income (rate x (height - LastRewardAt)) is added to Worker.Reward and stored only together with LastRewardAt := current height (no interval is accrued twice)")
+	ruleAccrualClock(r, "T-accrual-clock")
 }
 
 // ---------------------------------------------------------------- C07
